@@ -48,6 +48,10 @@ def schedules(situations, full):
                     else:
                         sc = dict(base, ackAt=1, infoAt=25, lat=[4, 4, 2], locale="en_US", plugin={"at": 13, "size": 200 if prefix == 2 else 5})
                         add("tick/%s/p%d/%s" % (frame, prefix, where), sc, seg={"frame": "Plugin", "cut": c, "pause": 7})
+                        if prefix == 2:
+                            # ... a frame of exactly 128 bytes (length prefix 80 01: its first byte alone reads as zero)
+                            sc = dict(sc, plugin={"at": 13, "size": 111})
+                            add("tick/%s/p%d/%s/len128" % (frame, prefix, where), sc, seg={"frame": "Plugin", "cut": c, "pause": 7})
             if prefix == 1:
                 # during routing: the echo of the Keep Alive of 16 starts at 19 and is completed at 34, after the deadline 32
                 for c in cuts("Echo", 1, where, full):
